@@ -24,6 +24,7 @@ import queue
 import random
 import subprocess
 import threading
+import time
 
 from ..common import LEAN, PY, REPO, VERIF, Check, Explore, Failure, lean_driver, parse_sexp, sexp
 from ..extract import memo as xmemo
@@ -103,9 +104,35 @@ def run_items(items: list[dict]) -> list[dict]:
     return _POOL.run(items)
 
 
+CLASS_NAMES = ('Foo', 'Bar', 'Later')
+
+
+def names_in(e) -> set:
+    """class names an operation (or expression) refers to"""
+    if isinstance(e, str):
+        return {n for n in CLASS_NAMES if n in e}
+    if isinstance(e, (list, tuple)):
+        out = set()
+        for x in e:
+            out |= names_in(x)
+        return out
+    return set()
+
+
 def fresh_ops(ops: list, i: int) -> list:
-    """What a fresh interpreter executes to answer operation i: the world operations before it, then it."""
-    return [op for op in ops[:i] if op[0] in WORLD_OPS] + [ops[i]]
+    """What a fresh interpreter executes to answer operation i: the definitions the operation refers to (every
+    generation of the classes it names, the function it calls and the classes that function's hint names), in
+    their original order, then the operation itself. Nothing else of the history exists for it."""
+    probe = ops[i]
+    need = names_in(probe[1:]) if probe[0] != 'deffunc' else names_in(probe[2])
+    funcs = set()
+    if probe[0] == 'call':
+        funcs.add(probe[1])
+        for op in ops[:i]:
+            if op[0] == 'deffunc' and op[1] == probe[1]:
+                need |= names_in(op[2])
+    world = [op for op in ops[:i] if (op[0] == 'defclass' and op[1] in need) or (op[0] == 'deffunc' and op[1] in funcs)]
+    return world + [probe]
 
 
 class FreshOracle:
@@ -292,6 +319,37 @@ class Builder:
             self.ops.append([r.choice(['sub', 'thsub', 'theq']), r.choice(pool), r.choice(pool)])
 
 
+TABLE_HINTS = ['int', 'str', ['list', 'int'], ['List', 'int'], ['list', 'bool'], ['union', 'int', 'str'], ['union', 'str', 'int'],
+               ['or', 'int', 'str'], ['or', 'str', 'int'], ['lit', '1'], ['lit', 'True'], ['lit', '1', '2'], ['lit', '2', '1'],
+               ['annU', 'int'], ['annU', 'str'], ['ann', 'int', '1'], ['ann', 'int', 'True'], ['dict', 'str', 'int'], ['set', 'int']]
+TABLE_WRAPPED = ['int', 'str', 'bool', ['annU', 'int'], ['annU', 'str'], ['annU', 'bool'], ['lit', '1'], ['lit', 'True']]
+
+
+def gen_table_history(rng: random.Random) -> list:
+    """History in the scope the table model describes exactly: root-level is_bearable / die_if_unbearable on
+    hints whose children are plain classes, TypeHint.is_subhint on plain / unhashable hints, (re)definitions,
+    clear_caches()."""
+    b = Builder(rng)
+    b.defclass('Foo')
+    for _ in range(rng.randint(6, 16)):
+        k = rng.random()
+        if k < 0.55:
+            if rng.random() < 0.5:
+                c = ['cls', 'Foo', b.any_gen('Foo')]
+                h = rng.choice([c, ['list', c], ['dict', 'str', c], ['or', c, 'None'], ['set', c], ['List', c]])
+            else:
+                h = rng.choice(TABLE_HINTS)
+            b.bear(h, rng.choice(OBJS + [['inst', 'Foo', -1], ['list', ['inst', 'Foo', -1]]]),
+                   api=rng.choice(['is_bearable', 'die_if_unbearable']), conf=rng.choice([0, 0, 1]))
+        elif k < 0.8:
+            b.ops.append(['thsub', rng.choice(TABLE_WRAPPED), rng.choice(TABLE_WRAPPED)])
+        elif k < 0.9:
+            b.defclass('Foo')
+        else:
+            b.ops.append(['clear'])
+    return b.ops
+
+
 FRAGS = [('redefine', 4), ('churn', 3), ('clear_ids', 3), ('lookalike', 3), ('conf', 1), ('fwdref', 3)]
 
 
@@ -338,10 +396,16 @@ def classify(ops: list, stats: dict) -> str:
         target = next((op for op in ops if op[0] == 'deffunc' and op[1] == probe[1]), None)
         if target is not None and "'" in target[2] and any(n in target[2] for n in redefined):
             name = next(n for n in redefined if n in target[2])
-            defs = [op for op in ops if op[0] == 'defclass' and op[1] == name]
-            if all(d[2] for d in defs):
-                return 'C14:fwdref-referent:beartyped-redefinition-unnoticed'
-            return 'C14:fwdref-referent:plain-class-redefinition'
+            idx = [j for j, op in enumerate(ops) if op[0] == 'defclass' and op[1] == name]
+            if not all(ops[j][2] for j in idx):
+                return 'C14:fwdref-referent:plain-class-redefinition'
+            # every definition of the referent is decorated: beartype should have noticed — unless the decorated
+            # redefinition of ANOTHER class in between reset its set of decorated names
+            others = {op[1] for op in ops[idx[0]:idx[-1]] if op[0] == 'defclass' and op[2] and op[1] != name}
+            reset = any(sum(1 for op in ops[:idx[-1]] if op[0] == 'defclass' and op[2] and op[1] == o) > 1 for o in others)
+            if reset:
+                return 'C14:fwdref-referent:beartyped-redefinition-after-set-reset'
+            return 'C14:fwdref-referent:beartyped-redefinition-not-cleared'
         return 'C14:call:' + shape
     if probe[0] == 'bear':
         if any(mentions(probe[2], n) for n in redefined):
@@ -443,37 +507,40 @@ def fails(ops: list, oracle: FreshOracle, tries: int = 1):
 
 
 def shrink(ops: list, oracle: FreshOracle) -> list:
-    """Greedy removal of operations before the probe, keeping the failure (world operations that the rest
-    needs cannot be removed: the candidate then errors and is discarded)."""
-    cur = ops
-    budget = 40
-    while budget > 0:
-        budget -= 1
-        n = len(cur) - 1
-        cands = []
-        # big cuts first: drop the first half / quarters, then single operations
-        for a, b in [(0, n // 2), (n // 2, n), (0, n // 4), (n // 4, n // 2)]:
-            if b - a >= 2:
-                cands.append(cur[:a] + cur[b:])
-        cands += [cur[:i] + cur[i + 1:] for i in range(n)]
-        seen, uniq = set(), []
+    """Delta-debugging of the operations before the probe, keeping the failure (a world operation that the rest
+    needs cannot be removed: the candidate then errors and is discarded). Chunks first, single operations last."""
+    def still_fails(cands):
+        """first (shortest) candidate whose last operation still answers differently from a fresh interpreter"""
+        uniq, seen = [], set()
         for c in cands:
             k = json.dumps(c)
-            if k not in seen and len(c) < len(cur):
+            if k not in seen:
                 seen.add(k)
                 uniq.append(c)
         if not uniq:
-            return cur
+            return None
         fresh = oracle.answers([fresh_ops(c, len(c) - 1) for c in uniq])
         res = run_items([{'ops': c, 'observe': False} for c in uniq])
-        nxt = None
-        for c, f, r in zip(uniq, fresh, res):
-            if 'answers' in r and f[0] != 'harness-error' and r['answers'][-1] != f:
-                if nxt is None or len(c) < len(nxt):
-                    nxt = c
-        if nxt is None:
-            return cur
-        cur = nxt
+        ok = [c for c, f, r in zip(uniq, fresh, res) if 'answers' in r and f[0] != 'harness-error' and r['answers'][-1] != f]
+        return min(ok, key=len) if ok else None
+    cur = ops
+    chunk = max(1, (len(cur) - 1) // 2)
+    rounds = 0
+    while rounds < 30:
+        rounds += 1
+        n = len(cur) - 1
+        if n == 0:
+            break
+        chunk = min(chunk, n)
+        cands = [cur[:a] + cur[a + chunk:] for a in range(0, n, chunk) if a + chunk <= n or a < n]
+        cands = [c for c in cands if c and c[-1] == cur[-1] and len(c) < len(cur)]
+        nxt = still_fails(cands)
+        if nxt is not None:
+            cur = nxt
+            continue
+        if chunk == 1:
+            break
+        chunk = max(1, chunk // 2)
     return cur
 
 
@@ -537,10 +604,11 @@ def lockstep(histories: list, results: list, ex: Explore, limit: int):
         for j, (m, e) in enumerate(zip(v[1], exp)):
             e = [x if isinstance(x, str) else ('true' if x else 'false') for x in e]
             if len(m) == 4:
-                # id table: the model tracks top-level keys only (nested is_subhint calls of child wrappers also
-                # create entries), so a model hit must be a real hit, not conversely; wrapper-table hits are exact
-                ok = m[0] == e[0] and m[1] == e[1] and (m[2] != 'true' or e[2] == 'true') and (m[3] != 'true' or e[3] == 'true')
-                if ok and m[2] != e[2]:
+                # wrapper and id tables: the model tracks the entries of top-level calls only (beartype also wraps
+                # child hints and compares them, and wraps some hints at import time), so every entry the model says
+                # exists must exist — not conversely
+                ok = all(mm != 'true' or ee == 'true' for mm, ee in zip(m, e))
+                if ok and m != e:
                     tolerated += 1
             else:
                 ok = m == e
@@ -548,7 +616,7 @@ def lockstep(histories: list, results: list, ex: Explore, limit: int):
                 ex.corr_diffs.append({'history': [render(o) for o in histories[k]], 'observed_op_index': j,
                                       'model_predicts': m, 'real_tables_show': e})
                 break
-    ex.extra['lockstep_id_hits_unexplained_by_toplevel_keys'] = tolerated
+    ex.extra['lockstep_door_entries_beyond_toplevel_calls'] = tolerated
 
 
 # ------------------------------------------------------------------------------------------------------------
@@ -564,71 +632,146 @@ CORPUS = [
     [['sub', a, b] for a in PLAIN[:4] for b in PLAIN[:4]] + [['clear']] + [['sub', a, b] for a in PLAIN[2:] + [['list', 'int']] for b in PLAIN[:5]],
     # failing forward reference defined later
     [['deffunc', 'f1', "'Later'", 0], ['call', 'f1', '1'], ['defclass', 'Later', False], ['call', 'f1', ['inst', 'Later', -1]]],
+    # decorated redefinitions: noticed (clear_caches) ...
+    [['deffunc', 'f1', "'Later'", 0], ['defclass', 'Later', True], ['call', 'f1', ['inst', 'Later', -1]],
+     ['defclass', 'Later', True], ['call', 'f1', ['inst', 'Later', -1]], ['call', 'f1', ['inst', 'Later', 0]]],
+    # ... unless the decorated redefinition of another class reset the set of decorated names in between
+    [['deffunc', 'f1', "'Foo'", 0], ['defclass', 'Foo', True], ['defclass', 'Bar', True], ['defclass', 'Bar', True],
+     ['call', 'f1', ['inst', 'Foo', -1]], ['defclass', 'Foo', True], ['call', 'f1', ['inst', 'Foo', -1]]],
+    # configurations are part of the key
+    [['bear', 'is_bearable', 'float', '1', 0], ['bear', 'is_bearable', 'float', '1', 1], ['bear', 'is_bearable', 'float', '1', 0],
+     ['bear', 'die_if_unbearable', ['list', 'float'], '[1]', 1], ['bear', 'die_if_unbearable', ['list', 'float'], '[1]', 0]],
 ]
 
 
-def explore(ck: Check, n: int, seed: int, lock_limit: int) -> Explore:
-    ex = Explore(rule='history (4-60 operations over is_bearable / die_if_unbearable / decorated call / TypeHint.is_bearable / '
+def explore(ck: Check, n: int, seed: int, n_table: int, n_truth: int) -> Explore:
+    """Forking a pristine interpreter is the expensive step, so true fresh-interpreter answers are bought where
+    they decide something. Every query occurrence is keyed by (definitions it refers to, query). Its answers are
+    collected from every history process it occurs in AND from two extra "batch" processes per group of queries
+    over the same definitions (one asks the group in order, one in reverse order — themselves histories, whose
+    first query is asked of a truly fresh interpreter). A key whose answers are not all identical, and a seeded
+    sample of `n_truth` further keys, is asked of a fresh interpreter of its own; every occurrence that differs
+    from a fresh answer is a violation, and the history before it is the failing input."""
+    ex = Explore(rule='a history (4-60 operations over is_bearable / die_if_unbearable / decorated call / TypeHint.is_bearable / '
                       'is_subhint / TypeHint.is_subhint / TypeHint == / call of an earlier-decorated function / class '
                       '(re)definition with or without @beartype / clear_caches() / gc) counts as non-trivial only if the '
                       'instrumented history process OBSERVED in it: an id() of a dead TypeHint reused by a new one, or two '
-                      'non-== hints with the same repr reaching the repr table, or a checker/id-table cache hit; every query '
-                      'of every history is compared with a fresh interpreter')
+                      'non-== hints with the same repr reaching the repr table, or a checker/id-table cache hit')
     rng = random.Random(seed)
     oracle = FreshOracle()
+    t0 = time.time()
+    phases = {}
     histories = [list(h) for h in CORPUS] + [gen_history(rng) for _ in range(n)]
+    table_from = len(histories)
+    histories += [gen_table_history(rng) for _ in range(n_table)]
+    user_histories = len(histories)
     results = run_items([{'ops': h, 'observe': True} for h in histories])
-    reqs, where = [], []
-    for k, (h, r) in enumerate(zip(histories, results)):
+    phases['histories'] = round(time.time() - t0, 1)
+    for k, r in enumerate(results):
         if 'answers' not in r:
-            raise RuntimeError(f'history {k} did not run: {r.get("error")} {r.get("trace", "")}\n{h}')
+            raise RuntimeError(f'history {k} did not run: {r.get("error")} {r.get("trace", "")}\n{histories[k]}')
+    # occurrences of every query key
+    occ: dict[str, list] = {}
+    req: dict[str, list] = {}
+
+    def note(k, h, answers):
         for i, op in enumerate(h):
             if is_probe(op):
-                reqs.append(fresh_ops(h, i))
-                where.append((k, i))
-    fresh = oracle.answers(reqs)
+                f = fresh_ops(h, i)
+                key = json.dumps(f)
+                req[key] = f
+                occ.setdefault(key, []).append((k, i, answers[i]))
+    for k, (h, r) in enumerate(zip(histories, results)):
+        note(k, h, r['answers'])
+    # batch processes: the queries over the same definitions, in order and in reverse order
+    groups: dict[str, list] = {}
+    for key, f in req.items():
+        groups.setdefault(json.dumps(f[:-1]), []).append(f)
+    batch_ops = []
+    for wkey, fs in groups.items():
+        world = json.loads(wkey)
+        probes = [f[-1] for f in fs]
+        rng.shuffle(probes)
+        for c in range(0, len(probes), 40):
+            chunk = probes[c:c + 40]
+            batch_ops.append(world + chunk)
+            if len(chunk) > 1:
+                batch_ops.append(world + chunk[::-1])
+    t1 = time.time()
+    batch_res = run_items([{'ops': b, 'observe': False} for b in batch_ops])
+    phases['batches'] = round(time.time() - t1, 1)
+    truth: dict[str, list] = {}
+    for b, r in zip(batch_ops, batch_res):
+        if 'answers' not in r:
+            raise RuntimeError(f'batch did not run: {r.get("error")} {r.get("trace", "")}\n{b}')
+        k = len(histories)
+        histories.append(b)
+        results.append(r)
+        note(k, b, r['answers'])
+        first = next(i for i, op in enumerate(b) if op[0] not in WORLD_OPS or i == len(b) - 1)
+        if fresh_ops(b, first) == b[:first + 1]:
+            truth[json.dumps(b[:first + 1])] = r['answers'][first]      # asked of a truly fresh interpreter
+    # true fresh answers: every key with disagreeing occurrences, then a seeded sample
+    disagree = [key for key, os_ in occ.items() if len({json.dumps(a) for _, _, a in os_}) > 1 and key not in truth]
+    disagree.sort(key=lambda key: (min(k for k, _, _ in occ[key]) >= user_histories, len(key)))
+    rest = [key for key in occ if key not in truth and key not in set(disagree)]
+    rng.shuffle(rest)
+    ask = disagree[:max(60, n_truth)] + rest[:n_truth]
+    t1 = time.time()
+    for key, a in zip(ask, oracle.answers([req[key] for key in ask])):
+        if a is not None and a[0] == 'harness-error':
+            raise RuntimeError(f'fresh interpreter failed on {req[key]}: {a}')
+        truth[key] = a
+    phases['true_fresh'] = round(time.time() - t1, 1)
+    ex.extra['keys_left_undecided_over_budget'] = max(0, len(disagree) - max(60, n_truth))
+    # statistics
     kinds, outcome, nontrivial, agg = {}, {}, set(), {}
-    bad: dict[int, int] = {}
-    for (k, i), f in zip(where, fresh):
-        a = results[k]['answers'][i]
-        ex.evaluations += 1
-        op = histories[k][i]
+    bad = []
+    for key, os_ in occ.items():
+        op = req[key][-1]
         kk = op[0] + ('.' + op[1] if op[0] == 'bear' else '')
-        kinds[kk] = kinds.get(kk, 0) + 1
-        oc = a[0] + ':' + str(a[1]) if a else 'none'
-        outcome[oc] = outcome.get(oc, 0) + 1
-        if f[0] == 'harness-error':
-            raise RuntimeError(f'fresh interpreter failed on {reqs[0]}: {f}')
-        if a != f and k not in bad:
-            bad[k] = i
-    for k, r in enumerate(results):
+        for k, i, a in os_:
+            ex.evaluations += 1
+            kinds[kk] = kinds.get(kk, 0) + 1
+            oc = a[0] + ':' + str(a[1])
+            outcome[oc] = outcome.get(oc, 0) + 1
+            if key in truth and a != truth[key]:
+                bad.append((k, i))
+    for k, r in enumerate(results[:user_histories]):
         st = r['stats']
-        for s, v in st.items():
-            agg[s] = agg.get(s, 0) + v
+        for s_, v in st.items():
+            agg[s_] = agg.get(s_, 0) + v
         if st['id_reuse'] or st['repr_collision'] or st['checker_hit'] or st['id_hit']:
             nontrivial.add(json.dumps(histories[k]))
     ex.distinct_nontrivial = len(nontrivial)
-    ex.extra['query_kinds'] = kinds
-    ex.extra['outcomes'] = dict(sorted(outcome.items(), key=lambda kv: -kv[1])[:12])
-    ex.extra['measured_in_history_processes'] = agg
-    ex.extra['histories'] = len(histories)
-    ex.extra['histories_with_id_reuse'] = sum(1 for r in results if r['stats']['id_reuse'])
-    ex.extra['histories_with_repr_collision'] = sum(1 for r in results if r['stats']['repr_collision'])
-    ex.extra['histories_with_cache_hit'] = sum(1 for r in results if r['stats']['checker_hit'] or r['stats']['id_hit'])
-    ex.extra['fresh_interpreter_evaluations'] = oracle.evaluations
-    ex.extra['extracted'] = {k: v for k, v in ck.__dict__.get('c14_extracted', {}).items() if k != 'sites'}
+    ex.extra.update({
+        'query_kinds': kinds, 'outcomes': dict(sorted(outcome.items(), key=lambda kv: -kv[1])[:12]),
+        'measured_in_history_processes': agg, 'histories': user_histories, 'batch_histories': len(batch_ops),
+        'distinct_query_keys': len(occ), 'keys_with_true_fresh_answer': len(truth),
+        'keys_with_disagreeing_occurrences': len(disagree),
+        'histories_with_id_reuse': sum(1 for r in results[:user_histories] if r['stats']['id_reuse']),
+        'histories_with_repr_collision': sum(1 for r in results[:user_histories] if r['stats']['repr_collision']),
+        'histories_with_cache_hit': sum(1 for r in results[:user_histories] if r['stats']['checker_hit'] or r['stats']['id_hit']),
+        'forks': None})
     ex.samples = [{'history': [render(o) for o in h[:8]]} for h in histories[len(CORPUS):len(CORPUS) + 3]]
-    # failures: shrink, classify, report one per key
-    keys_seen = set()
-    for k, i in sorted(bad.items(), key=lambda kv: len(histories[kv[0]])):
-        if len(keys_seen) >= 6:
+    # failures: shortest failing prefixes first; shrink, classify, report one per key
+    bad.sort(key=lambda ki: (ki[1], ki[0]))
+    t1 = time.time()
+    keys_seen: set = set()
+    guessed: set = set()
+    for k, i in bad:
+        if len(keys_seen) >= 6 or len(guessed) >= 7:
             break
         ops = histories[k][:i + 1]
+        guess = classify(ops, results[k].get('stats', {}))
+        if guess in keys_seen or guess in guessed:
+            continue
+        guessed.add(guess)
         first = fails(ops, oracle, tries=2)
         if first is None:
-            # not reproducible on its own (address layout): keep the original evidence
-            hist_a, fresh_a, stats = results[k]['answers'][i], oracle.answers([fresh_ops(ops, i)])[0], results[k]['stats']
+            # not reproducible on its own (address layout differs): report the original evidence unshrunk
             small = ops
+            hist_a, fresh_a, stats = results[k]['answers'][i], truth[json.dumps(fresh_ops(ops, i))], results[k].get('stats', {})
         else:
             small = shrink(ops, oracle)
             again = fails(small, oracle, tries=3)
@@ -645,10 +788,18 @@ def explore(ck: Check, n: int, seed: int, lock_limit: int) -> Explore:
                  f'a fresh interpreter answers {fresh_a}',
             replay={'ops': small, 'readable': [render(o) for o in small], 'history_answer': hist_a, 'fresh_answer': fresh_a,
                     'measured': stats, 'unshrunk_ops': ops if len(ops) <= 80 else None}))
+    phases['shrink'] = round(time.time() - t1, 1)
+    ex.extra['true_fresh_interpreter_forks'] = oracle.evaluations
+    t1 = time.time()
+    del ex.extra['forks']
     try:
-        lockstep(histories, results, ex, lock_limit)
+        lockstep(histories[table_from:user_histories], results[table_from:user_histories], ex, n_table)
     except Exception as e:            # a model that does not build is a proof problem, reported by prove()
         ex.extra['lockstep_error'] = str(e)[:500]
+    phases['lockstep'] = round(time.time() - t1, 1)
+    ex.extra['phase_seconds'] = phases
+    ck.log(f'[{ck.pid}] explore: {user_histories} histories + {len(batch_ops)} batch histories, {len(occ)} query keys, '
+           f'{len(truth)} with a true fresh answer, {len(disagree)} disagreeing, {len(bad)} occurrences differ from fresh; phases {phases}')
     return ex
 
 
@@ -674,8 +825,8 @@ def main(ck: Check) -> int:
     quick = ck.tier == 'quick'
     ck.c14_extracted = xmemo.extract()
     proof = ck.prove(MODULE, PROP_FILE)
-    ex = explore(ck, n=260 if quick else 4000, seed=ck.seed, lock_limit=200 if quick else 1500)
-    ck.decide(proof, ex, deep_search=lambda: explore(ck, n=3000, seed=ck.seed + 1000, lock_limit=0))
+    ex = explore(ck, n=60 if quick else 2000, seed=ck.seed, n_table=24 if quick else 400, n_truth=60 if quick else 2500)
+    ck.decide(proof, ex, deep_search=lambda: explore(ck, n=1200, seed=ck.seed + 1000, n_table=0, n_truth=1500))
     partial = ['C14_fwdref_partial (referents remembered by forward-reference proxies are current only while no name is bound twice; '
                'C14_fwdref_counterexample)',
                'C14_repr_key_partial / C14_id_key_partial describe the code BEFORE the fixes C14_repr_key / C14_id_key; '
